@@ -57,7 +57,8 @@ def main(argv):
             bases.append(ents[-1][0][:-1])                           # last subtree: the agent answers end-of-MIB
         for ver, v3 in cfgs:
             for mode in (("sync", "async") if (thorough or i % 2 == 0) else ("sync",)):
-                sc = {"version": ver, "mode": mode, "timeout": 0.5, "steps": [], "session_kw": {}}
+                sc = {"version": ver, "mode": mode, "timeout": 0.5, "steps": [],
+                      "session_kw": rng.choice([{}, {}, {"max_repetitions": rng.choice([1, 5, 127, 128, 150, 255, 256])}])}
                 if v3:
                     sc["v3"] = dict(v3, engine_id="80001f8880a1b2c3d4", agent_engine_id="80001f8880a1b2c3d4", boots=2, time=500)
                 ex = []
@@ -66,7 +67,7 @@ def main(argv):
                     kinds = ["getnext", "fetch"] if ver == "v1" else ["getnext", "getbulk", "getbulk", "fetch"]
                     for kind in kinds:
                         if kind == "getbulk":
-                            mr = rng.choice([1, 2, 3, 7, 20, 50])
+                            mr = rng.choice([1, 2, 3, 7, 20, 50, 127, 128, 200, 255, 256, 1000, 65535])
                             args = [ber.oid_text(base), mr]
                         else:
                             args = [ber.oid_text(base)]
@@ -95,7 +96,7 @@ def main(argv):
                 kind = {"getnext": "next", "getbulk": "bulk:%s" % (st["args"][1] if len(st["args"]) > 1 else "-"),
                         "fetch": "fetch:%s:1" % sc["version"]}[st["op"]]
                 mkeys[(si, ti)] = len(mlines)
-                mlines.append("pywalk %s %s %d 600 %s" % (kind, st["args"][0].encode().hex(), default_max_rep(sc["mode"]), " ".join(pdus)))
+                mlines.append("pywalk %s %s %d 600 %s" % (kind, st["args"][0].encode().hex(), sc["session_kw"].get("max_repetitions", default_max_rep(sc["mode"])), " ".join(pdus)))
     mwalks = vf.run_lines(cexe, mlines) if mlines else []
     if res is None:
         c.errors.append("API worker failed: " + log[-1500:])
